@@ -876,8 +876,10 @@ func (c *Ctx) applyOp(name string, m modeling.Mesh) opRun {
 			return tr(meshops.NormalizeAttribute3DTransformer{Attribute: attr}, m)
 		})
 	case "smoothnormals":
+		c.noteFloatOnly(name, m, modeling.PositionAttribute, 0)
 		return runOp(name, ms, false, func() []modeling.Mesh { return tr(meshops.SmoothNormalsTransformer{}, m) })
 	case "flatnormals":
+		c.noteFloatOnly(name, m, modeling.PositionAttribute, 0)
 		return runOp(name, ms, false, func() []modeling.Mesh { return tr(meshops.FlatNormalsTransformer{}, m) })
 	case "laplacian":
 		attr := c.pickV3Attr(m)
@@ -896,6 +898,7 @@ func (c *Ctx) applyOp(name string, m modeling.Mesh) opRun {
 				}
 			}
 		}
+		c.noteFloatOnly(name, m, attr, iters)
 		return runOp(name, fmt.Sprintf("%s %d %s %s", attr, iters, F(factor), ms), false, func() []modeling.Mesh {
 			return one(meshops.LaplacianSmooth(m, attr, iters, factor))
 		})
@@ -975,6 +978,67 @@ func (c *Ctx) guardSeq(op string, f func()) {
 		}
 	}()
 	f()
+}
+
+// noteFloatOnly counts how often the float-only branches excluded from the value theorems over ℝ are reached:
+// smooth:nan-skip (a referenced triangle with a non-finite position), flat:degenerate-last-face (the last triangle of some
+// vertex has a zero / non-finite cross product), lap:neighbourless (a vertex without neighbours, iterations >= 1).
+func (c *Ctx) noteFloatOnly(op string, m modeling.Mesh, attr string, iters int) {
+	defer func() { recover() }()
+	if !m.HasFloat3Attribute(attr) {
+		return
+	}
+	d := m.Float3Attribute(attr)
+	idx := m.Indices()
+	bad := func(v vector3.Float64) bool { s := v.X() + v.Y() + v.Z(); return math.IsNaN(s) || math.IsInf(s, 0) }
+	switch op {
+	case "smoothnormals", "flatnormals":
+		if m.Topology() != modeling.TriangleTopology {
+			return
+		}
+		last := map[int]bool{} // vertex -> its last face is degenerate
+		nanSkip := false
+		for t := 0; t+2 < idx.Len(); t += 3 {
+			a, b, cc := d.At(idx.At(t)), d.At(idx.At(t+1)), d.At(idx.At(t+2))
+			cr := b.Sub(a).Cross(cc.Sub(a))
+			if math.IsNaN(cr.X()) {
+				nanSkip = true
+			}
+			deg := bad(cr) || (cr.X() == 0 && cr.Y() == 0 && cr.Z() == 0)
+			last[idx.At(t)], last[idx.At(t+1)], last[idx.At(t+2)] = deg, deg, deg
+		}
+		if op == "smoothnormals" && nanSkip {
+			c.Note("smooth:nan-skip")
+		}
+		if op == "flatnormals" {
+			for _, dg := range last {
+				if dg {
+					c.Note("flat:degenerate-last-face")
+					break
+				}
+			}
+		}
+	case "laplacian":
+		if iters < 1 || (m.Topology() != modeling.TriangleTopology && m.Topology() != modeling.LineStripTopology) {
+			return
+		}
+		ref := make([]bool, d.Len())
+		if m.Topology() == modeling.TriangleTopology {
+			for t := 0; t+2 < idx.Len(); t += 3 {
+				ref[idx.At(t)], ref[idx.At(t+1)], ref[idx.At(t+2)] = true, true, true
+			}
+		} else if idx.Len() >= 2 {
+			for t := 0; t < idx.Len(); t++ {
+				ref[idx.At(t)] = true
+			}
+		}
+		for _, r := range ref {
+			if !r {
+				c.Note("lap:neighbourless")
+				break
+			}
+		}
+	}
 }
 
 // lastVisits: the callback invocations of the most recent scanMesh call (count, then index + first component each)
